@@ -2,6 +2,7 @@ package main
 
 import (
 	"bufio"
+	stdx509 "crypto/x509"
 	"fmt"
 	"math/big"
 	"net"
@@ -9,6 +10,7 @@ import (
 	"path/filepath"
 	"strings"
 
+	"github.com/zmap/zlint/v3/lint"
 	"github.com/zmap/zlint/v3/util"
 )
 
@@ -194,6 +196,101 @@ func subIP(out string, seed uint64, tier string, arg string) {
 			network(128, v, rng.Intn(129))
 			contains(128, new(big.Int).SetBytes(rng.Bytes(16)), rng.Intn(129), 128, v)
 		}
+	}
+	// ---- the two list-reading lints through the framework: several SAN addresses / several permitted subtrees per certificate, in
+	// both orders, nested and overlapping — the verdict is about each entry on its own ("any"), whatever else is listed
+	regL, lerr := lint.GlobalRegistry().Filter(lint.FilterOptions{IncludeNames: []string{"e_ext_san_contains_reserved_ip", "e_ext_nc_intersects_reserved_ip"}})
+	if lerr == nil {
+		enc := func(ip net.IP) string {
+			if v4 := ip.To4(); v4 != nil && len(ip) == 4 {
+				return "32:" + bigFromIP(v4).String()
+			}
+			if len(ip) == 16 {
+				return "128:" + bigFromIP(ip).String()
+			}
+			return "32:" + bigFromIP(ip.To4()).String()
+		}
+		lintSAN := func(ips []net.IP) {
+			var raw [][]byte
+			var parts []string
+			for _, ip := range ips {
+				b := []byte(ip)
+				if v4 := ip.To4(); v4 != nil {
+					b = []byte(v4)
+				}
+				raw = append(raw, b)
+				parts = append(parts, enc(net.IP(b)))
+			}
+			der, err := BuildCert(CertSpec{DNS: []string{"ip.example.com"}, IPs: raw, EKUs: []stdx509.ExtKeyUsage{stdx509.ExtKeyUsageServerAuth}})
+			if err != nil {
+				return
+			}
+			o := parseObj("cert", "kit-ip-san", der)
+			if o == nil {
+				return
+			}
+			rs, p := lintObj(o, regL)
+			if p != "" || rs == nil || rs.Results["e_ext_san_contains_reserved_ip"] == nil {
+				return
+			}
+			emit("iplint-san\t"+strings.Join(parts, ","), fmt.Sprint(int(rs.Results["e_ext_san_contains_reserved_ip"].Status)))
+		}
+		lintNC := func(nets []*net.IPNet) {
+			var parts []string
+			for _, n := range nets {
+				ones, _ := n.Mask.Size()
+				parts = append(parts, enc(n.IP)+":"+fmt.Sprint(ones))
+			}
+			der, err := BuildCert(CertSpec{IsCA: true, Subject: pkixName("NC Sub CA"), KeyUsage: stdx509.KeyUsageCertSign, PermittedIPs: nets})
+			if err != nil {
+				rep.count("iplint-nc-build-error")
+				return
+			}
+			o := parseObj("cert", "kit-ip-nc", der)
+			if o == nil || len(o.Cert.PermittedIPAddresses) != len(nets) {
+				rep.count("iplint-nc-rejected")
+				return
+			}
+			rs, p := lintObj(o, regL)
+			if p != "" || rs == nil || rs.Results["e_ext_nc_intersects_reserved_ip"] == nil {
+				return
+			}
+			emit("iplint-nc\t"+strings.Join(parts, ","), fmt.Sprint(int(rs.Results["e_ext_nc_intersects_reserved_ip"].Status)))
+		}
+		cidr := func(s string) *net.IPNet {
+			_, n, err := net.ParseCIDR(s)
+			if err != nil {
+				return nil
+			}
+			if v4 := n.IP.To4(); v4 != nil {
+				n.IP = v4
+			}
+			return n
+		}
+		pub := []string{"8.0.0.0/8", "8.8.8.0/24", "1.1.1.0/24", "126.0.0.0/8", "2000::/16", "2606:4700::/32", "9.0.0.0/8"}
+		wide := []string{"8.0.0.0/6", "8.0.0.0/5", "126.0.0.0/7", "0.0.0.0/0", "2000::/3", "::/0", "10.0.0.0/8", "192.168.0.0/16", "fc00::/7", "100.64.0.0/10", "8.0.0.0/7"}
+		for _, a := range pub {
+			lintNC([]*net.IPNet{cidr(a)})
+			for _, b := range wide {
+				lintNC([]*net.IPNet{cidr(a), cidr(b)})
+				lintNC([]*net.IPNet{cidr(b), cidr(a)})
+				lintNC([]*net.IPNet{cidr(a), cidr(a), cidr(b)})
+			}
+			for _, b := range pub {
+				lintNC([]*net.IPNet{cidr(a), cidr(b)})
+			}
+		}
+		hostsPub := []string{"8.8.8.8", "1.1.1.1", "2606:4700:4700::1111", "9.9.9.9"}
+		hostsRes := []string{"10.0.0.1", "192.168.1.1", "127.0.0.1", "169.254.1.1", "::1", "fe80::1", "2001:db8::1", "100.64.0.1", "255.255.255.255", "0.0.0.0", "224.0.0.1", "::ffff:10.0.0.1"}
+		for _, a := range hostsPub {
+			lintSAN([]net.IP{net.ParseIP(a)})
+			for _, b := range hostsRes {
+				lintSAN([]net.IP{net.ParseIP(a), net.ParseIP(b)})
+				lintSAN([]net.IP{net.ParseIP(b), net.ParseIP(a)})
+				lintSAN([]net.IP{net.ParseIP(a), net.ParseIP(a), net.ParseIP(b)})
+			}
+		}
+		rep.count("iplint-ops")
 	}
 	rep.write(filepath.Join(out, "report.json"))
 }
